@@ -100,6 +100,11 @@ def validate(ctx, traces, prop, kind):
             key = "%s:%s" % (prop, d["clause"])
             if d["clause"] in ("Total",):
                 key += ":%s:%s" % (e.get("s", e["act"]), e.get("raised", "").split(":")[0])
+            elif d["clause"] == "EvalTotal":
+                what = [x.get("what", "") for x in e["vals"][d["env"] - 1] if x["h"] == d["h"]]
+                key += ":%s:%s" % (d.get("top", "?"), (what or [""])[0].split(":")[0])
+            elif d["clause"] == "Width" and e["act"] == "bin":
+                key += ":%s" % e["s"]
             ctx.fail(key, "%s trace (w=%d thr=%d): clause %s at call %d %s handle %s env#%s"
                      % (kind, t["w"], t["thr"], d["clause"], line, json.dumps(brief), d["h"], d["env"]),
                      {"trace": t, "verdict": d})
